@@ -784,6 +784,7 @@ class Alpha:
 import re as _re
 
 _META = _re.compile(r"^_[A-Z][A-Z0-9]*_$")
+_LOOSE = [False]
 
 
 def pmatch(pattern: str, node, binds: Optional[Dict[str, str]] = None) -> Optional[Dict[str, str]]:
@@ -805,7 +806,14 @@ def _pm(p, n, b) -> bool:
             b[key] = src
             return True
         if not isinstance(n, ast.Name):
-            return False
+            # in the normal form locals are substituted away: a metavariable then binds the (consistent) expression text
+            if not _LOOSE[0] or not isinstance(n, ast.expr):
+                return False
+            src = ast.unparse(n)
+            if p.id in b:
+                return b[p.id] == src
+            b[p.id] = src
+            return True
         if p.id in b:
             return b[p.id] == n.id
         b[p.id] = n.id
@@ -849,3 +857,91 @@ def find_match(pattern: str, root, binds=None):
             if r is not None:
                 return n, r
     return None, None
+
+
+# ---------------------------------------------------------------------------
+# matching against the function as written, then against its normal form (vlib/pynorm.py)
+
+def pattern_idents(pattern: str) -> set:
+    """identifiers a pattern mentions literally (kept un-inlined when the normal form is built)"""
+    out = set()
+    for n in ast.walk(ast.parse(pattern, mode="eval")):
+        if isinstance(n, ast.Name) and not _META.match(n.id):
+            out.add(n.id)
+        elif isinstance(n, ast.Attribute):
+            out.add(n.attr)
+    return out
+
+
+def find_match_ast(pat, root, binds=None):
+    _LOOSE[0] = True
+    try:
+        for n in ast.walk(root):
+            if isinstance(n, ast.expr):
+                b = dict(binds or {})
+                if _pm(pat, n, b):
+                    return n, b
+    finally:
+        _LOOSE[0] = False
+    return None, None
+
+
+def fmatch(pm: "PyModel", pattern: str, fi, binds=None, keep=()):
+    """(node, binds, form): first match of `pattern` in the function as written (form 'source'), else in its normal form
+    (form 'normal'; node positions then refer to the rewritten tree and only the function's own line should be reported)."""
+    if isinstance(fi, str):
+        fi = pm.func(fi)
+    node, b = find_match(pattern, fi.node, binds)
+    if node is not None:
+        return node, b, "source"
+    from .pynorm import normalizer, norm_expr
+    from .pynorm import canon_globals
+    nf = normalizer(pm).function(fi, frozenset(pattern_idents(pattern) | set(keep)))
+    pat = canon_globals(pm, norm_expr(ast.parse(pattern, mode="eval").body))
+    node, b = find_match_ast(pat, nf, binds)
+    if node is not None:
+        return node, b, "normal"
+    return None, None, None
+
+
+def nfunc(pm: "PyModel", fi, keep=()):
+    """normal form of a function (see vlib/pynorm.py)"""
+    if isinstance(fi, str):
+        fi = pm.func(fi)
+    from .pynorm import normalizer
+    return normalizer(pm).function(fi, frozenset(keep))
+
+
+def nreturn(pm: "PyModel", fi, keep=()):
+    """the single returned expression of a function in normal form, or None when the normal form is not one `return`"""
+    nf = nfunc(pm, fi, keep)
+    from .pynorm import _single_return
+    return _single_return(nf.body)
+
+
+def nmatch(pm: "PyModel", pattern: str, fi, keep=()):
+    """bindings when the WHOLE function is, in normal form, `return <pattern>`; else None"""
+    if isinstance(fi, str):
+        fi = pm.func(fi)
+    from .pynorm import norm_expr
+    e = nreturn(pm, fi, frozenset(pattern_idents(pattern) | set(keep)))
+    if e is None:
+        return None
+    from .pynorm import canon_globals
+    pat = canon_globals(pm, norm_expr(ast.parse(pattern, mode="eval").body))
+    _LOOSE[0] = True
+    try:
+        b = {}
+        return b if _pm(pat, e, b) else None
+    finally:
+        _LOOSE[0] = False
+
+
+def ladder(expr):
+    """flatten `a if t1 else (b if t2 else c)` into [(t1, a), (t2, b), (None, c)]"""
+    out = []
+    while isinstance(expr, ast.IfExp):
+        out.append((expr.test, expr.body))
+        expr = expr.orelse
+    out.append((None, expr))
+    return out
